@@ -1,6 +1,7 @@
 import Spine.SenderThm
 import Spine.Counter
 import Spine.SenderLru
+import Spine.SenderSpec
 /-!
 # C13 — outbound message identity and request de-duplication
 
@@ -52,6 +53,19 @@ theorem c13_response_reenables (s : Snd.St) (c h : Nat) (hi : Snd.Inv s) (hm : (
 /-- non-vacuity of the three statements above: a history with a withheld request -/
 def exSt : Snd.St := [Snd.Op.request 7, .request 8].foldl Snd.step {}
 example : (Snd.request exSt 7).2 = (1, false) ∧ (1, 7) ∈ exSt.req ∧ 9 ∉ exSt.req.map (·.2) := by decide
+
+/-- MODEL ⊨ SPEC for the de-duplication clauses as one statement over histories: the SPEC is the
+    executable monitor `Snd.Spec.run` (the same predicate the Go harness evaluates on the real
+    Sender's trace): a request may be withheld only if an identical request was written and not
+    answered since, and then exactly that request's counter is returned. From the initial state
+    every history of the model passes it. -/
+theorem c13_model_satisfies_spec (ops : List Snd.Op) :
+    (Snd.Spec.run [] (Snd.observations {} ops)).isSome :=
+  Snd.model_satisfies_spec ops {} [] (by intro c h hm; simp at hm)
+
+/-- non-vacuity: the monitor does reject a wrong withholding (so passing it means something) -/
+example : Snd.Spec.run [] [.req 7 1 true, .resp 1, .req 7 1 false] = none := by decide
+example : (Snd.Spec.run [] [.req 7 1 true, .req 7 1 false, .resp 1, .req 7 2 true]).isSome := by decide
 
 /-- REFUTED on the code as written (known finding `lru-promotion`): "the datagram of any of the
     last 100 notifications can be retrieved by its counter" — after 100 notifications a lookup of
